@@ -183,7 +183,7 @@ def run_case(case):
     c.close(got["pxx"], want["pxx"], "moments", "sum_pxx", tags, scale=scale * scale * n)
     c.close(got["ll"], want["ll"], "moments", "log_likelihood", tags, scale=abs(want["ll"]) * 2.0**-8)
     # transform(list) == acc_stats per element
-    parts = [X[:1], X] if n > 1 else [X]
+    parts = [X[:1], X[:0], X, X[:0]] if n > 1 else [X[:0], X]  # includes samples without any frame
     tr = m.transform([p.copy() for p in parts])
     c.check(isinstance(tr, list) and len(tr) == len(parts), "transform", "transform(list) must return one statistics object per element", tags)
     if not c.viol:
